@@ -694,10 +694,28 @@ def analyse(ret, name, params_s, body):
         if m:
             end = match_paren(body_na, m.end() - 1, "{", "}")
             rest = body_na[end + 1:]
-            c = re.match(r"^\s*catch\s*\(\s*SymEngineException\s*&\s*\w*\s*\)\s*\{\s*return\s+nullptr\s*;\s*\}\s*"
-                         r"catch\s*\(\s*\.\.\.\s*\)\s*\{\s*return\s+nullptr\s*;\s*\}", rest)
-            if not c:
-                raise Bad("%s: try block without the catch-all `return nullptr` handlers" % name)
+            # handlers: any number of `catch (T) { ...; return nullptr; }`, the last one being `catch (...)`
+            pos_h = 0
+            saw_all = False
+            while True:
+                h = re.match(r"\s*catch\s*\(([^)]*)\)\s*\{", rest[pos_h:])
+                if not h:
+                    break
+                hb = match_paren(rest, pos_h + h.end() - 1, "{", "}")
+                hbody = rest[pos_h + h.end():hb]
+                if not re.search(r"return\s+nullptr\s*;\s*$", hbody.strip()):
+                    raise Bad("%s: a catch handler does not end with `return nullptr`" % name)
+                if calls_in(hbody):
+                    raise Bad("%s: a catch handler calls functions" % name)
+                saw_all = saw_all or h.group(1).strip() == "..."
+                pos_h = hb + 1
+            if not saw_all:
+                raise Bad("%s: try block without a catch-all `return nullptr` handler" % name)
+
+            class _C:
+                def end(self_inner):
+                    return pos_h
+            c = _C()
             pre = body_na[:m.start()] + " " + rest[c.end():]
             inner = body_na[m.end():end]
             wrap = "WNull"
